@@ -147,6 +147,20 @@ CLAIMED["C06"] = dict(
     technique=EMOD_TECH,
     design="DESIGN.md#c06",
 )
+CLAIMED["C05"] = dict(
+    engine="E-modify",
+    text="Lean theorems for every IR: where a block leaves the module (remove_block, join_blocks) it is purged from "
+    "alignment, from the whole-block tables of its kind and from every offset-keyed table; it is in no function "
+    "table and no symbol stays on it (C02/C06 theorems); on failure the return-cache context leaves ir.cfg = the "
+    "caller's object with the live edges and the reference-cache context materialises every pending referent "
+    "(C20 theorems for every body and history). Oracle: a whole-IR validator written in Lean evaluated on the real "
+    "module after apply() returns and, closure part, after the k-th patch callback raises for every k; gtirb's "
+    "protobuf save/load round trip compared by canonical dump. Tie: per-operation correspondence of the Lean IR "
+    "model. Partial: well-formedness of the whole output is decided by the oracle, the theorems cover the purge "
+    "points and the failure paths.",
+    technique="Lean 4 proof (frame/purge lemmas, C20 refinement theorems) + executable-spec validator on the real output incl. fault injection + differential correspondence",
+    design="DESIGN.md#c05",
+)
 
 ALL = ["C%02d" % i for i in range(1, 21)]
 
@@ -188,7 +202,7 @@ def main():
         "engines": [
             {"name": "E-abi", "path": "lean/GtirbVerif/Model/Abi", "serves_properties": ["C16", "C17"], "kind_free_text": "abstract machine + Lean models of _allocate_patch_registers, the four prologue/epilogue generators and CallPatch; tables regenerated from abi._ABIS"},
             {"name": "E-adt", "path": "lean/GtirbVerif/Model/Adt", "serves_properties": ["C20", "C09"], "kind_free_text": "Lean models of ReferenceCache, ReturnEdgeCache, make_return_cache, BlockOrdering, OffsetMapping, IdentitySet with refinement proofs"},
-            {"name": "E-modify", "path": "lean/GtirbVerif/Model/IR", "serves_properties": ["C01", "C02", "C03", "C04", "C06"], "kind_free_text": "abstract GTIRB IR + Lean models of edit_byte_interval, split_block, are_joinable/join_blocks, remove_block, insert, delete, _cleanup_modified_blocks, the offset loop of _apply_modifications; listing specification (Spec/Listing*.lean)"},
+            {"name": "E-modify", "path": "lean/GtirbVerif/Model/IR", "serves_properties": ["C01", "C02", "C03", "C04", "C05", "C06"], "kind_free_text": "abstract GTIRB IR + Lean models of edit_byte_interval, split_block, are_joinable/join_blocks, remove_block, insert, delete, _cleanup_modified_blocks, the offset loop of _apply_modifications; listing specification (Spec/Listing*.lean)"},
             {"name": "E-dwarf", "path": "lean/GtirbVerif/Model/Dwarf", "serves_properties": ["C14", "C15"], "kind_free_text": "Lean model of dwarf/_encoders,_encodable,expr,cfi,cfi_eval + regenerated tables"},
         ],
         "checks": checks,
